@@ -87,7 +87,7 @@ Definition run1 {A} (p : push A) (s0 : St p) (lgs : St p -> list (list (ev N)))
   | (o, tr, s) => (o, rev tr, match o with Panicked => [] | _ => map (@rev _) (lgs s) end)
   end.
 
-Definition run_case_x (fx_fm fx_rf : bool) (c : comb) (fuel : nat) (items : list (list N)) (dn : list script) : observation :=
+Definition run_case (c : comb) (fuel : nat) (items : list (list N)) (dn : list script) : observation :=
   let d0 : ds N := ds0 (nthsc dn 0) in
   let d1 : ds N := ds0 (nthsc dn 1) in
   match c with
@@ -96,12 +96,8 @@ Definition run_case_x (fx_fm fx_rf : bool) (c : comb) (fuel : nat) (items : list
   | CFilterMap q f => run1 (filter_map_push R (fmopt q f)) d0 (fun s => [lg s]) fuel (map it_n items)
   | CInspect => run1 (inspect_push R) ([], d0) (fun s => [lg (snd s); map (@ESend N) (fst s)])
                      fuel (map it_n items)
-  | CFlatMap g =>
-    if fx_fm then run1 (flat_map_push2 R (gev g)) (None, d0) (fun s => [lg (snd s)]) fuel (map it_n items)
-    else run1 (flat_map_push R (gev g)) (None, d0) (fun s => [lg (snd s)]) fuel (map it_n items)
-  | CFlatten =>
-    if fx_fm then run1 (flatten_push2 R) (None, d0) (fun s => [lg (snd s)]) fuel items
-    else run1 (flatten_push R) (None, d0) (fun s => [lg (snd s)]) fuel items
+  | CFlatMap g => run1 (flat_map_push R (gev g)) (None, d0) (fun s => [lg (snd s)]) fuel (map it_n items)
+  | CFlatten => run1 (flatten_push R) (None, d0) (fun s => [lg (snd s)]) fuel items
   | CFanout => run1 (fanout_push R R) ((false, false), (d0, d1))
                     (fun s => [lg (fst (snd s)); lg (snd (snd s))]) fuel (map it_n items)
   | CUnzip => run1 (unzip_push R R) ((false, false), (d0, d1))
@@ -126,35 +122,20 @@ Definition run_case_x (fx_fm fx_rf : bool) (c : comb) (fuel : nat) (items : list
     run1 (keyed_push (map_push R enc_kv) (reduce_keyed_upd (oev o)) ord) (([], [], false), d0)
          (fun s => [lg (snd s)]) fuel (map it_pair items)
   | CPipeFMFanout g =>
-    if fx_fm then
-      run1 (flat_map_push2 (fanout_push R R) (gev g)) (None, ((false, false), (d0, d1)))
-           (fun s => [lg (fst (snd (snd s))); lg (snd (snd (snd s)))]) fuel (map it_n items)
-    else
-      run1 (flat_map_push (fanout_push R R) (gev g)) (None, ((false, false), (d0, d1)))
-           (fun s => [lg (fst (snd (snd s))); lg (snd (snd (snd s)))]) fuel (map it_n items)
+    run1 (flat_map_push (fanout_push R R) (gev g)) (None, ((false, false), (d0, d1)))
+         (fun s => [lg (fst (snd (snd s))); lg (snd (snd (snd s)))]) fuel (map it_n items)
   | CPipeMFF f g q =>
-    if fx_fm then
-      run1 (map_push (flat_map_push2 (filter_push R (pev q)) (gev g)) (fev f)) (None, d0)
-           (fun s => [lg (snd s)]) fuel (map it_n items)
-    else
-      run1 (map_push (flat_map_push (filter_push R (pev q)) (gev g)) (fev f)) (None, d0)
-           (fun s => [lg (snd s)]) fuel (map it_n items)
+    run1 (map_push (flat_map_push (filter_push R (pev q)) (gev g)) (fev f)) (None, d0)
+         (fun s => [lg (snd s)]) fuel (map it_n items)
   | CPipeFFF q f o init =>
     run1 (filter_push (fanout_push (map_push R (fev f)) (accumulate_push (oev o) (@fold_outf N) R)) (pev q))
          ((false, false), (d0, (Accumulating init, d1)))
          (fun s => [lg (fst (snd s)); lg (snd (snd (snd s)))]) fuel (map it_n items)
   | CResolve w =>
-    if fx_rf then
-      run1 (resolve_push2 R w) (false, ([], d0))
-           (fun s => [lg (snd (snd s)); map (fun f : N * nat => ESend (fst f)) (rev (fst (snd s)))])
-           fuel (map it_fut items)
-    else
-      run1 (resolve_push R w) ([], d0)
-           (fun s => [lg (snd s); map (fun f : N * nat => ESend (fst f)) (rev (fst s))])
-           fuel (map it_fut items)
+    run1 (resolve_push R w) (false, ([], d0))
+         (fun s => [lg (snd (snd s)); map (fun f : N * nat => ESend (fst f)) (rev (fst (snd s)))])
+         fuel (map it_fut items)
   end.
-
-Definition run_case := run_case_x false false.
 
 (* ------------------------------------------------------------------ reference semantics *)
 
@@ -330,11 +311,6 @@ Definition verdict (agree holds : bool) : N :=
 Definition chk12 (c : comb) (fuel : nat) (items : list (list N)) (dn : list script)
            (i : observation) : N :=
   verdict (obs_agree i (run_case c fuel items dn)) (C12_holds_b c items dn i).
-
-(* the same against the model variants of the proposed repairs *)
-Definition chk12x (fx_fm fx_rf : bool) (c : comb) (fuel : nat) (items : list (list N)) (dn : list script)
-           (i : observation) : N :=
-  verdict (obs_agree i (run_case_x fx_fm fx_rf c fuel items dn)) (C12_holds_b c items dn i).
 
 Definition chk12w (c : comb) (fuel : nat) (items : list (list N)) (dn : list script)
            (i : observation) : N :=
